@@ -185,11 +185,20 @@ var redirects = map[string]string{
 	"github.com/vapourismo/knx-go/knx/knxnet.DialTunnelTCP":           "verifDialTunnelTCP",
 	"github.com/vapourismo/knx-go/knx/knxnet.ListenRouterOnInterface": "verifListenRouter",
 	"github.com/vapourismo/knx-go/knx/knxnet.HostInfoFromAddress":     "verifHostInfoFromAddress",
+	// package context is modelled by a small harness type (Done channel closed by a virtual-clock timer)
+	"context.WithTimeout": "github.com/vapourismo/knx-go/knx/knxnet.VerifContextWithTimeout",
+	"context.WithCancel":  "github.com/vapourismo/knx-go/knx/knxnet.VerifContextWithCancel",
 }
 
 func (e *Exec) redirect(fn *ssa.Function) *ssa.Function {
 	to, ok := redirects[fn.String()]
 	if !ok || fn.Pkg == nil {
+		return nil
+	}
+	if i := strings.LastIndex(to, "."); i >= 0 {
+		if p := e.World.Pkgs[to[:i]]; p != nil {
+			return p.Func(to[i+1:])
+		}
 		return nil
 	}
 	return fn.Pkg.Func(to)
